@@ -75,7 +75,8 @@ func decodeCertificatePEM(crtb []byte) (*x509.Certificate, []byte, error) {
 		return nil, nil, nil
 	}
 	if block.Type != "CERTIFICATE" {
-		return nil, nil, nil
+		// Not a certificate: skip this block, the rest may hold more certificates.
+		return nil, crtb, nil
 	}
 	c, err := x509.ParseCertificate(block.Bytes)
 	return c, crtb, err
